@@ -71,6 +71,11 @@ inline void make_group(Group &G, uint64_t seed, unsigned long psize, unsigned lo
 //  I  a,b: one additional reliable broadcast with payload b is made just before its a-th own broadcast (a false or
 //          duplicated complaint, a stray end marker ...); the sequence numbers of its later broadcasts are shifted
 //  J  a,b: three additional broadcasts b, 1, 1 before its a-th own broadcast (a complaint with two values)
+//  Z  a,b: Byzantine dealer of a ZERO sharing (phase Proto::zero_phase()): with delta = {1, q-1, 42}[b], delta' = 7
+//          a=0 a CONSISTENT Pedersen sharing of a polynomial with constant term delta: the first commitment of the phase
+//              (C_b0 = 1) is broadcast as g^delta h^delta', every private pair (s, s') goes out as (s+delta, s'+delta')
+//          a=1 only the commitment is rewritten (shares of a zero polynomial under a non-zero commitment)
+//          a=2 only the shares are rewritten (C_b0 = 1, shares of a non-zero polynomial)
 struct Dev {
 	char kind;
 	int a, b;
@@ -107,10 +112,12 @@ struct PartyState {
 	std::string ins_id;
 	// coins
 	int phase, weak8;
+	int phase_bcast0;           // own broadcasts / private messages sent before the current phase began
+	std::vector<int> phase_ucount0;
 	// results
 	int phase_done;
 	std::vector<int> ret;      // -1 not run, 0 false, 1 true
-	PartyState() : faulty(false), events(0), bcasts(0), cur_batch(-1), fired(false), crashed(false), ins_off(0), phase(0), weak8(0), phase_done(-1) {}
+	PartyState() : faulty(false), events(0), bcasts(0), cur_batch(-1), fired(false), crashed(false), ins_off(0), phase(0), weak8(0), phase_bcast0(0), phase_done(-1) {}
 };
 
 struct Cfg {
@@ -143,6 +150,7 @@ struct Proto {
 	virtual void judge() = 0;                                                             // in the parent
 	virtual std::vector<int> coin_layout(int party) const = 0;                           // leading coins per phase
 	virtual bool rest_matters(int party) const { return false; }
+	virtual int zero_phase() const { return -1; }                                         // phase that is a zero sharing
 };
 
 struct Viol { std::string key, what; };
@@ -213,6 +221,16 @@ public:
 	}
 };
 
+inline void commit(mpz_ptr out, const Group &G, mpz_srcptr a, mpz_srcptr b);
+
+inline void zdelta(mpz_ptr delta, mpz_ptr deltap, int which, const Group &G)
+{
+	if (which == 0) mpz_set_ui(delta, 1);
+	else if (which == 1) mpz_sub_ui(delta, G.q, 1);
+	else mpz_set_ui(delta, 42);
+	mpz_set_ui(deltap, 7);
+}
+
 inline void apply_payload(std::string &dec, int how, const Group &G)
 {
 	Mpz v;
@@ -274,6 +292,21 @@ inline bool run_world(World &W, Proto &P, uint64_t seed)
 			case 'D':
 				if (to == d.a) { ps.fired = true; return false; }
 				break;
+			case 'Z':
+				if (ps.phase == P.zero_phase() && (d.a == 0 || d.a == 2) && !m.is_array && m.v.size() == 1)
+				{
+					int rel = idx - ((size_t)to < ps.phase_ucount0.size() ? ps.phase_ucount0[to] : 0);
+					if (rel == 0 || rel == 1)
+					{
+						Mpz v, dl, dlp;
+						zdelta(dl, dlp, d.b, G);
+						mpz_set_str(v, m.v[0].c_str(), 10);
+						mpz_add(v, v, rel == 0 ? dl : dlp), mpz_mod(v, v, G.q);
+						m.v[0] = v.s();
+						ps.fired = true;
+					}
+				}
+				break;
 			default: break;
 		}
 		return true;
@@ -318,6 +351,14 @@ inline bool run_world(World &W, Proto &P, uint64_t seed)
 		}
 		if (d.kind == 'c' && ps.cur_batch == d.a && to >= d.b) { ps.fired = true; throw Crash(); }
 		if (d.kind == 'M' && ps.cur_batch == d.a) { apply_payload(m.v[4], d.b, G); ps.fired = true; }
+		if (d.kind == 'Z' && ps.phase == P.zero_phase() && (d.a == 0 || d.a == 1) && ps.cur_batch == ps.phase_bcast0)
+		{
+			Mpz dl, dlp, c;
+			zdelta(dl, dlp, d.b, G);
+			commit(c, G, dl, dlp);
+			m.v[4] = c.s();
+			ps.fired = true;
+		}
 		return true;
 	};
 
@@ -361,6 +402,7 @@ inline bool run_world(World &W, Proto &P, uint64_t seed)
 			for (int ph = 0; ph < NPH; ph++)
 			{
 				ps.phase = ph, ps.weak8 = 0;
+				ps.phase_bcast0 = ps.bcasts, ps.phase_ucount0 = ps.ucount;
 				if (ps.faulty || P.wants(ph, i))
 				{
 					bool r = P.run(ph, i, &au, &rbc, ps.faulty && ps.dev.kind == 'B');
